@@ -35,7 +35,7 @@ Inductive hpitem :=
 | HPnum (block hap : Z)       (* "block-hap" *)
 | HPdot                        (* "." *)
 | HPnone                       (* python None: what pysam returns for an empty string value *)
-| HPbad.                       (* any other text *)
+| HPbad (t : token).           (* any other text (interned), e.g. 'mat', '1', 'h2' written by another tool *)
 
 Record call := mkCall {
   gt : option (list allele);         (* None: FORMAT has no GT key *)
@@ -382,7 +382,8 @@ Definition allele_eqb : allele -> allele -> bool := opt_eqb Nat.eqb.
 Definition hpitem_eqb (a b : hpitem) : bool :=
   match a, b with
   | HPnum x y, HPnum x' y' => (x =? x') && (y =? y')
-  | HPdot, HPdot | HPnone, HPnone | HPbad, HPbad => true
+  | HPdot, HPdot | HPnone, HPnone => true
+  | HPbad s, HPbad t => s =? t
   | _, _ => false
   end.
 Definition gt_eqb := opt_eqb (list_eqb allele_eqb).
